@@ -277,7 +277,7 @@ def init_worker():
 
 def units(tier):
     nb = len(bases(tier))
-    us = [("SCHED", i, 16) for i in range(16)] + [("PAIRS", i, k) for i in range(nb) for k in range(8)] + [("S6", i) for i in range(16)]
+    us = [("SCHED", i, 16) for i in range(16)] + [("PAIRS", i, k) for i in range(nb) for k in range(16)] + [("S6", i) for i in range(16)]
     if tier == "thorough":
         us += [("TRIPLES", i) for i in range(nb)]
     return us
@@ -319,12 +319,12 @@ def run_base(res, idx, triples, shard=0):
     if not triples:
         combos = []
         for s in sts:
-            if s[0] % 8 != shard:
+            if s[0] % 16 != shard:
                 continue
             for k in KINDS:
                 combos.append([(s, k, 1)])
         for a, b in itertools.combinations(sts, 2):
-            if a[0] % 8 != shard:
+            if a[0] % 16 != shard:
                 continue
             for ka, kb in ((("#", "#"), ("/**/", "#"), ("#odd", "2line")) if _TIER[0] == "quick" else
                            (("#", "#"), ("#", "/**/"), ("/**/", "#"), ("2line", "#"), ("#odd", "#"), ("#odd", "2line"))):
